@@ -114,20 +114,30 @@ def isPerm (p : Ax → Ax) : Bool :=
 /-- the array axis that holds source axis `a` after `np.transpose(array, p)` -/
 def invPerm (p : Ax → Ax) (a : Ax) : Ax := if p 0 = a then 0 else if p 1 = a then 1 else 2
 
-/-- `permute_spatial_axes(p)`: new axis `i` is old axis `p i` -/
-def permute {α : Type} (v : Vol α) (p : Ax → Ax) : Except ErrKind (Vol α) :=
+/-- `_permute_affine` + new shape: new axis `i` is old axis `p i` -/
+def permuteGeom (g : Geom) (p : Ax → Ax) : Except ErrKind Geom :=
   if isPerm p then
-    .ok { geom := { v.geom with dir := fun i => v.geom.dir (p i), spacing := fun i => v.geom.spacing (p i),
-                                shape := fun i => v.geom.shape (p i) },
-          vox := fun k => v.vox (fun a => k (invPerm p a)) }
+    .ok { g with dir := fun i => g.dir (p i), spacing := fun i => g.spacing (p i), shape := fun i => g.shape (p i) }
   else .error .value
+
+/-- `permute_spatial_axes(p)`: geometry as above, array `np.transpose(array, p)` -/
+def permute {α : Type} (v : Vol α) (p : Ax → Ax) : Except ErrKind (Vol α) :=
+  match permuteGeom v.geom p with
+  | .error e => .error e
+  | .ok g => .ok { geom := g, vox := fun k => v.vox (fun a => k (invPerm p a)) }
+
+/-- `_prepare_pad_width` (nested form) + new shape -/
+def padGeom (g : Geom) (before after : Ax → Int) : Except ErrKind Geom :=
+  if before 0 < 0 || before 1 < 0 || before 2 < 0 || after 0 < 0 || after 1 < 0 || after 2 < 0 then .error .value
+  else
+    .ok { g with pos := g.toRef (fun a => -(before a : Rat)), shape := fun a => g.shape a + before a + after a }
 
 /-- `pad([[b0,a0],[b1,a1],[b2,a2]], mode=CONSTANT-like, value c)` -/
 def pad {α : Type} (v : Vol α) (before after : Ax → Int) (c : α) : Except ErrKind (Vol α) :=
-  if before 0 < 0 || before 1 < 0 || before 2 < 0 || after 0 < 0 || after 1 < 0 || after 2 < 0 then .error .value
-  else
-    .ok { geom := { v.geom with pos := v.geom.toRef (fun a => -(before a : Rat)),
-                                shape := fun a => v.geom.shape a + before a + after a },
+  match padGeom v.geom before after with
+  | .error e => .error e
+  | .ok g =>
+    .ok { geom := g,
           vox := fun k => if inShape v.geom.shape (fun a => k a - before a) then v.vox (fun a => k a - before a) else c }
 
 /-- a Python slice with an explicit start -/
@@ -142,54 +152,74 @@ def adjustBound (b n step : Int) : Int :=
   else if b ≥ n then (if step < 0 then n - 1 else n)
   else b
 
-/-- `slice(start, stop, step).indices(n)` → (first, last); `step ≠ 0` -/
-def sliceIndices (s : Sl) (n : Int) : Int × Int :=
-  (adjustBound s.start n s.step,
-   match s.stop with
-   | some e => adjustBound e n s.step
-   | none => if s.step < 0 then -1 else n)
+/-- `_check_slice` for the stop value -/
+def stopOutOfRange (stop : Option Int) (n : Int) : Bool :=
+  match stop with
+  | some e => e < -n - 1 || e > n
+  | none => false
+
+/-- `slice(start, stop, step).indices(n)[1]` (`step ≠ 0`) -/
+def lastOf (s : Sl) (n : Int) : Int :=
+  match s.stop with
+  | some e => adjustBound e n s.step
+  | none => if s.step < 0 then -1 else n
 
 /-- one axis of `_prepare_getitem_index` for a slice item → (first, step, size) -/
 def getitemAxis (s : Sl) (n : Int) : Except ErrKind (Int × Int × Int) :=
-  -- _check_slice
-  if s.start < -n || s.start ≥ n then .error .value
-  else if (match s.stop with
-           | some e => e < -n - 1 || e > n
-           | none => false) then .error .value
-  else if s.step = 0 then .error .value          -- slice.indices: "slice step cannot be zero"
-  else
-    let fl := sliceIndices s n
-    let range := fl.2 - fl.1
-    if range = 0 || (decide (range < 0) != decide (s.step < 0)) then .error .index
-    else .ok (fl.1, s.step, (Int.natAbs range - 1 : Int) / (Int.natAbs s.step : Int) + 1)
+  if s.start < -n || s.start ≥ n then .error .value          -- _check_slice
+  else if stopOutOfRange s.stop n then .error .value
+  else if s.step = 0 then .error .value                       -- slice.indices: "slice step cannot be zero"
+  else if lastOf s n - adjustBound s.start n s.step = 0 ||
+          (decide (lastOf s n - adjustBound s.start n s.step < 0) != decide (s.step < 0)) then .error .index
+  else .ok (adjustBound s.start n s.step, s.step,
+            ((Int.natAbs (lastOf s n - adjustBound s.start n s.step) : Int) - 1) / (Int.natAbs s.step : Int) + 1)
+
+/-- geometry after indexing with (first, step, size) per axis: columns scaled by the step, origin at `first` -/
+def sliceGeom (g : Geom) (first step size : Ax → Int) : Geom :=
+  { g with dir := fun a => if step a < 0 then V3.neg (g.dir a) else g.dir a,
+           spacing := fun a => g.spacing a * ((Int.natAbs (step a) : Int) : Rat),
+           pos := g.toRef (toRat first),
+           shape := size }
+
+/-- `_prepare_getitem_index` for three slices → (new geometry, first, step) -/
+def getitemGeom (g : Geom) (s : Ax → Sl) : Except ErrKind (Geom × (Ax → Int) × (Ax → Int)) :=
+  match getitemAxis (s 0) (g.shape 0) with
+  | .error e => .error e
+  | .ok r0 =>
+  match getitemAxis (s 1) (g.shape 1) with
+  | .error e => .error e
+  | .ok r1 =>
+  match getitemAxis (s 2) (g.shape 2) with
+  | .error e => .error e
+  | .ok r2 =>
+    let first : Ax → Int := mk3 r0.1 r1.1 r2.1
+    let step : Ax → Int := mk3 r0.2.1 r1.2.1 r2.2.1
+    let size : Ax → Int := mk3 r0.2.2 r1.2.2 r2.2.2
+    .ok (sliceGeom g first step size, first, step)
 
 /-- `volume[s0, s1, s2]` -/
-def getitem {α : Type} (v : Vol α) (s : Ax → Sl) : Except ErrKind (Vol α) := do
-  let r0 ← getitemAxis (s 0) (v.geom.shape 0)
-  let r1 ← getitemAxis (s 1) (v.geom.shape 1)
-  let r2 ← getitemAxis (s 2) (v.geom.shape 2)
-  let first : Ax → Int := mk3 r0.1 r1.1 r2.1
-  let step : Ax → Int := mk3 r0.2.1 r1.2.1 r2.2.1
-  let size : Ax → Int := mk3 r0.2.2 r1.2.2 r2.2.2
-  pure { geom := { v.geom with
-                   dir := fun a => if step a < 0 then V3.neg (v.geom.dir a) else v.geom.dir a,
-                   spacing := fun a => v.geom.spacing a * (Int.natAbs (step a) : Int),
-                   pos := v.geom.toRef (toRat first),
-                   shape := size },
-         vox := fun k => v.vox (fun a => first a + step a * k a) }
+def getitem {α : Type} (v : Vol α) (s : Ax → Sl) : Except ErrKind (Vol α) :=
+  match getitemGeom v.geom s with
+  | .error e => .error e
+  | .ok (g, first, step) => .ok { geom := g, vox := fun k => v.vox (fun a => first a + step a * k a) }
 
 /-! ## match_geometry -/
 
 /-- inner alignment loop: first source axis (in order 0,1,2) accepted by `mgAlign` for the target
 axis with unit vector `u` and spacing `s`; `else: raise RuntimeError` when none matches -/
-def alignAxis (src : Geom) (u : V3) (s tol : Rat) : Except ErrKind (Ax × Int) := do
-  let r0 ← mgAlign (V3.dot u (src.dir 0)) s (src.spacing 0) tol
-  if r0.1 then pure (0, r0.2) else
-  let r1 ← mgAlign (V3.dot u (src.dir 1)) s (src.spacing 1) tol
-  if r1.1 then pure (1, r1.2) else
-  let r2 ← mgAlign (V3.dot u (src.dir 2)) s (src.spacing 2) tol
-  if r2.1 then pure (2, r2.2) else
-  .error .runtime
+def alignAxis (src : Geom) (u : V3) (s tol : Rat) : Except ErrKind (Ax × Int) :=
+  match mgAlign (V3.dot u (src.dir 0)) s (src.spacing 0) tol with
+  | .error e => .error e
+  | .ok (true, st) => .ok (0, st)
+  | .ok (false, _) =>
+  match mgAlign (V3.dot u (src.dir 1)) s (src.spacing 1) tol with
+  | .error e => .error e
+  | .ok (true, st) => .ok (1, st)
+  | .ok (false, _) =>
+  match mgAlign (V3.dot u (src.dir 2)) s (src.spacing 2) tol with
+  | .error e => .error e
+  | .ok (true, st) => .ok (2, st)
+  | .ok (false, _) => .error .runtime
 
 /-- what the crop/pad loop leaves behind for one axis -/
 structure AxisPlan where
@@ -205,33 +235,74 @@ def planOf (r : Int × Bool × Int × Int × Int × Int × Bool × Bool) : AxisP
     requiresCrop := r.2.2.2.2.2.2.1, requiresPad := r.2.2.2.2.2.2.2 }
 
 /-- one iteration of the crop/pad loop (translated body) for axis `a` of the permuted volume -/
-def planAxis (nv tgt : Geom) (step : Int) (tol : Rat) (a : Ax) (rc rp : Bool) : Except ErrKind AxisPlan := do
-  let r ← mgCropPad (V3.dot (nv.dir a) (V3.sub tgt.pos nv.pos)) (nv.spacing a) step (tgt.shape a) (nv.shape a) tol rc rp
-  pure (planOf r)
+def planAxis (nv tgt : Geom) (step : Int) (tol : Rat) (a : Ax) (rc rp : Bool) : Except ErrKind AxisPlan :=
+  match mgCropPad (V3.dot (nv.dir a) (V3.sub tgt.pos nv.pos)) (nv.spacing a) step (tgt.shape a) (nv.shape a) tol rc rp with
+  | .error e => .error e
+  | .ok r => .ok (planOf r)
+
+/-- frame of reference test at the head of `match_geometry` (fix a5861fb) -/
+def forConflict (g h : Geom) : Bool :=
+  match g.frameOfRef, h.frameOfRef with
+  | some a, some b => a != b
+  | _, _ => false
+
+/-- the alignment loops: `permute_indices` and `step_sizes` -/
+def matchAlign (src tgt : Geom) (tol : Rat) : Except ErrKind ((Ax → Ax) × (Ax → Int)) :=
+  match alignAxis src (tgt.dir 0) (tgt.spacing 0) tol with
+  | .error e => .error e
+  | .ok a0 =>
+  match alignAxis src (tgt.dir 1) (tgt.spacing 1) tol with
+  | .error e => .error e
+  | .ok a1 =>
+  match alignAxis src (tgt.dir 2) (tgt.spacing 2) tol with
+  | .error e => .error e
+  | .ok a2 => .ok (mk3 a0.1 a1.1 a2.1, mk3 a0.2 a1.2 a2.2)
+
+/-- the crop/pad derivation loop over the three axes of the permuted volume -/
+def matchPlan (nv tgt : Geom) (steps : Ax → Int) (tol : Rat) : Except ErrKind (AxisPlan × AxisPlan × AxisPlan) :=
+  match planAxis nv tgt (steps 0) tol 0 false false with
+  | .error e => .error e
+  | .ok p0 =>
+  match planAxis nv tgt (steps 1) tol 1 p0.requiresCrop p0.requiresPad with
+  | .error e => .error e
+  | .ok p1 =>
+  match planAxis nv tgt (steps 2) tol 2 p1.requiresCrop p1.requiresPad with
+  | .error e => .error e
+  | .ok p2 => .ok (p0, p1, p2)
+
+/-- `requires_permute = permute_indices != [0, 1, 2]` -/
+def requiresPermute (p : Ax → Ax) : Bool := !(p 0 == 0 && p 1 == 1 && p 2 == 2)
+
+/-- pad if required, crop if required (`copy()` when nothing is required: the identity here) -/
+def matchApply {α : Type} (nv : Vol α) (pl : AxisPlan × AxisPlan × AxisPlan) (c : α) : Except ErrKind (Vol α) :=
+  match (if pl.2.2.requiresPad then
+           pad nv (mk3 pl.1.before pl.2.1.before pl.2.2.before) (mk3 pl.1.after pl.2.1.after pl.2.2.after) c
+         else .ok nv) with
+  | .error e => .error e
+  | .ok nv1 => if pl.2.2.requiresCrop then getitem nv1 (mk3 pl.1.sl pl.2.1.sl pl.2.2.sl) else .ok nv1
 
 /-- `self.match_geometry(other, mode=CONSTANT-like, constant_value=c, tol=tol)` as written
 (after the fixes a5861fb, 79e6ca4, f6a8aef): frame of reference and coordinate system tests,
 alignment, permutation, crop/pad derivation, pad, crop, final comparison with the target. -/
-def matchGeometry {α : Type} (src : Vol α) (tgt : Geom) (tol : Rat) (c : α) : Except ErrKind (Vol α) := do
-  if (match src.geom.frameOfRef, tgt.frameOfRef with
-      | some a, some b => a != b
-      | _, _ => false) then throw .runtime
-  if src.geom.cs != tgt.cs then throw .runtime
-  let a0 ← alignAxis src.geom (tgt.dir 0) (tgt.spacing 0) tol
-  let a1 ← alignAxis src.geom (tgt.dir 1) (tgt.spacing 1) tol
-  let a2 ← alignAxis src.geom (tgt.dir 2) (tgt.spacing 2) tol
-  let p : Ax → Ax := mk3 a0.1 a1.1 a2.1
-  let requiresPermute := !(a0.1 == 0 && a1.1 == 1 && a2.1 == 2)
-  let nv ← if requiresPermute then permute src p else pure src
-  let p0 ← planAxis nv.geom tgt a0.2 tol 0 false false
-  let p1 ← planAxis nv.geom tgt a1.2 tol 1 p0.requiresCrop p0.requiresPad
-  let p2 ← planAxis nv.geom tgt a2.2 tol 2 p1.requiresCrop p1.requiresPad
-  -- `copy()` when nothing is required: the identity in this model
-  let nv ← if p2.requiresPad then pad nv (mk3 p0.before p1.before p2.before) (mk3 p0.after p1.after p2.after) c
-           else pure nv
-  let nv ← if p2.requiresCrop then getitem nv (mk3 p0.sl p1.sl p2.sl) else pure nv
-  let eq ← geometryEqual nv.geom tgt (some tol)
-  if eq then pure nv else throw .runtime
+def matchGeometry {α : Type} (src : Vol α) (tgt : Geom) (tol : Rat) (c : α) : Except ErrKind (Vol α) :=
+  if forConflict src.geom tgt then .error .runtime else
+  if src.geom.cs != tgt.cs then .error .runtime else
+  match matchAlign src.geom tgt tol with
+  | .error e => .error e
+  | .ok (p, steps) =>
+  match (if requiresPermute p then permute src p else .ok src) with
+  | .error e => .error e
+  | .ok nv =>
+  match matchPlan nv.geom tgt steps tol with
+  | .error e => .error e
+  | .ok pl =>
+  match matchApply nv pl c with
+  | .error e => .error e
+  | .ok r =>
+  match geometryEqual r.geom tgt (some tol) with
+  | .error e => .error e
+  | .ok true => .ok r
+  | .ok false => .error .runtime
 
 /-! ## index transformer and bounds checks -/
 
